@@ -24,14 +24,15 @@ for i in (1, 2, 3):
     crate = crate_of(open(demo).read(), open(d).read())
     tdir = os.path.join(wt, "crates", crate, "tests"); os.makedirs(tdir, exist_ok=True)
     tname = f"seed_demo_{prop.lower()}_{i}"
+    feat = " --features parsing" if 'feature = "parsing"' in open(demo).read() and crate == "maybenot" else ""
     shutil.copy(demo, os.path.join(tdir, tname + ".rs"))
     # demo on the unmodified code
-    r0 = sh(f"cargo test -p {crate} --offline --test {tname} 2>&1 | tail -5", cwd=wt)
+    r0 = sh(f"cargo test -p {crate} --offline{feat} --test {tname} 2>&1 | tail -5", cwd=wt)
     clean_pass = "test result: ok" in r0.stdout
     ap = sh(f"git apply {d}", cwd=wt)
     if ap.returncode != 0:
         print(prop, i, "diff does not apply", ap.stderr[:200]); continue
-    r1 = sh(f"cargo test -p {crate} --offline --test {tname} 2>&1 | tail -8", cwd=wt)
+    r1 = sh(f"cargo test -p {crate} --offline{feat} --test {tname} 2>&1 | tail -8", cwd=wt)
     mutant_fail = "test result: FAILED" in r1.stdout or "panicked" in r1.stdout
     os.remove(os.path.join(tdir, tname + ".rs"))
     rs = sh("cargo test --workspace --offline 2>&1 | grep -E '^test result|FAILED|^error' ", cwd=wt)
